@@ -1,6 +1,7 @@
 import ChessVerif.Refine.Abs
 import ChessVerif.Model.Text
 import ChessVerif.CodeTables
+import ChessVerif.Refine.Dump
 /-
 Parsing / printing of the line protocol (PROTOCOL.md).  Driver code: trusted for the correspondence
 check only, never used in a theorem.
@@ -68,9 +69,9 @@ def moveList? (s : String) : Option (List Move) :=
 def showMoveList (l : List Move) : String := if l.isEmpty then "-" else ",".intercalate (l.map showMv)
 
 /-- field 15 of a board dump is the observable `get_hash()`; the model's private `hash` field is derived
-from it by undoing the side / castle / en-passant keys exactly as `Board.getHash` applies them (xor is an
-involution), so that `b.getHash T` = the dumped value by construction and `impl Hash` is not relied on. -/
-def rawOfGhash (T : Tables) (b : Board) (g : BB) : BB := g ^^^ (({ b with hash := 0#64 } : Board).getHash T)
+from it (`Board.rawOfGhash`, `Refine/Dump.lean`: the one value for which `b.getHash T` is the dumped value),
+so `impl Hash` is not relied on. -/
+def rawOfGhash (T : Tables) (b : Board) (g : BB) : BB := b.rawOfGhash T g
 
 def board? (s : String) : Option Board :=
   match s.splitOn "," with
